@@ -45,6 +45,10 @@ class RunModel:
             if self.kref[k][1] not in repo.classes():
                 raise Unresolved(f'{FILTER}: class Filter.{k} not found')
         self.npaths = 0
+        q.expect_locals(self.mod, self.run, ['filter', 'stop_evt', 'prop_exit', 'loop_exc', 'is_exc', 'config', 'sig_stop', 'obey_exit', 'cls'])
+        q.expect_locals(self.mod, self.exit, ['self', 'reason', 'exc'])
+        q.expect_locals(self.mod, self.run, ['filter', 'stop_evt', 'prop_exit', 'loop_exc', 'is_exc', 'config', 'sig_stop', 'obey_exit', 'cls'])
+        q.expect_locals(self.mod, self.exit, ['self', 'reason', 'exc'])
 
     def scenario(self, site: str | None, kind: str | None, prop: str, loop_yes: bool, via_exit: bool = False, emitter: bool = True,
                  start_emitted_in_init: bool = True) -> list[Path]:
@@ -419,6 +423,7 @@ def r3(rr, repo):
 @rule('C08.R4', 'loop_once polls the stop event in both wait loops and tests the exit_after deadline on every normal path to its end')
 def r4(rr, repo):
     mod, fn = repo.find(f'{FILTER}::Filter.loop_once')
+    q.expect_locals(mod, fn, ['self'])
     exit_ref = ('repo', f'{FILTER}::Filter.Exit')
 
     def oracle(call, rc, path, ev_):
@@ -582,8 +587,23 @@ def r6(rr, repo):
         created = [c for c in q.attr_calls(fi, 'socket')]
         rr.floor(f'{cls}: sockets created', len(created), 2, zm, fi)
         closes = [c for c in q.attr_calls(fd, 'close')]
+
+        def closed_kind(c):
+            """which socket collection / attribute does `<x>.close()` close: resolve loop variables through zip(self.pulls, self.pubs)"""
+            recv = c.func.value
+            if isinstance(recv, ast.Attribute):
+                return recv.attr
+            if isinstance(recv, ast.Name):
+                for a in ancestors_incl(c):
+                    if isinstance(a, ast.For):
+                        tg = a.target.elts if isinstance(a.target, ast.Tuple) else [a.target]
+                        its = a.iter.args if isinstance(a.iter, ast.Call) and U(a.iter.func) == 'zip' else [a.iter]
+                        for t, it in zip(tg, its):
+                            if isinstance(t, ast.Name) and t.id == recv.id and isinstance(it, ast.Attribute):
+                                return it.attr.rstrip('s')
+            return U(recv)
         for s in socks:
-            cl = [c for c in closes if U(c.func.value).split('.')[-1] == s]
+            cl = [c for c in closes if closed_kind(c) == s]
             rr.ob(f'{cls}.destroy() closes the {s} socket(s)', bool(cl), zm, fd, key=f'close|{cls}|{s}')
             if s == 'push' and cl:
                 g = q.guards_of(cl[0])
